@@ -6,6 +6,7 @@ import WebAuthnModel.Generated.TpmAndroid
 import WebAuthnModel.Model.KeyDesc
 import WebAuthnModel.Model.Tpm2
 import WebAuthnModel.Model.San
+import WebAuthnModel.Model.Jws
 /-
   The seven attestation statement verification procedures (attestation_statement*.go, certificate.go).
   Dependencies (x509, asn1, go-tpm, go-jose, crypto) are oracles; everything the repository itself decides —
@@ -322,19 +323,58 @@ def verifyTPM (o : AttObj) (cdHash : Bytes) : Prog (Option Result) := do
   | _ => pure none
 
 /-! ### android-safetynet -/
+
+/-- the steps after `jwt.ParseSigned` for the JWS forms `Model/Jws.lean` does not cover (JSON serialisation, a "jwk" header member):
+    one opaque answer of the dependency, as before -/
+def verifySafetyNetOpaque (raw : Bytes) (o : AttObj) (cdHash : Bytes) : Prog (Option Result) := do
+  match ← query (.safetyNet raw) with
+  | .safetyNet v =>
+    if !v.parsed then pure none
+    else if !v.chainsOK then pure none
+    else if !v.claimsOK then pure none
+    else
+      let expected ← sha256 (o.authData ++ cdHash)
+      if v.nonce ≠ expected then pure none else pure (some ⟨"Basic", []⟩)
+  | _ => pure none
+
+/-- `x509.ParseCertificate` of every x5c entry of the protected header (`parseCertificateChain` in go-jose's shared.go) -/
+def parseChain : List Bytes → Prog (Option (List (Bytes × CertView)))
+  | [] => pure (some [])
+  | der :: rest => do
+    match ← askCert der with
+    | none => pure none
+    | some c =>
+      match ← parseChain rest with
+      | none => pure none
+      | some cs => pure (some ((der, c) :: cs))
+
+def safetyNetDNSName : Bytes := s Generated.Core.safetyNetDNSName
+
+/-- compact serialisation: `jwt.ParseSigned` (Jws.parse + certificate parsing), `Headers[0].Certificates(VerifyOptions{DNSName})`,
+    `Claims(leaf key, &SafetyNetClaims{})` (signature, then the payload's JSON), nonce comparison -/
+def verifySafetyNetCompact (raw : Bytes) (c : Jws.Compact) (o : AttObj) (cdHash : Bytes) : Prog (Option Result) := do
+  match ← parseChain c.x5c with
+  | none => pure none                                   -- ParseSigned fails: an x5c entry is not a certificate
+  | some [] => pure none                                -- "no x5c header present in message"
+  | some ((leafDer, _) :: rest) =>
+    if !(← askBool (.x509Verify leafDer (rest.map (·.1)) safetyNetDNSName)) then pure none
+    else if !c.verifiable then pure none                -- Verify fails before looking at the signature ("crit", empty protected header)
+    else if !(← askBool (.jwsVerify raw leafDer)) then pure none
+    else
+      match Jws.claims c.payload with
+      | none => pure none
+      | some nonce =>
+        let expected ← sha256 (o.authData ++ cdHash)
+        if nonce ≠ expected then pure none else pure (some ⟨"Basic", []⟩)
+
 def verifySafetyNet (o : AttObj) (cdHash : Bytes) : Prog (Option Result) := do
   match stmtBytes o.stmt "response" with
   | none => pure none
   | some raw =>
-    match ← query (.safetyNet raw) with
-    | .safetyNet v =>
-      if !v.parsed then pure none
-      else if !v.chainsOK then pure none
-      else if !v.claimsOK then pure none
-      else
-        let expected ← sha256 (o.authData ++ cdHash)
-        if v.nonce ≠ expected then pure none else pure (some ⟨"Basic", []⟩)
-    | _ => pure none
+    match Jws.parse raw with
+    | .error => pure none
+    | .unmodelled => verifySafetyNetOpaque raw o cdHash
+    | .ok c => verifySafetyNetCompact raw c o cdHash
 
 /-- `VerifyAttestationStatement`: dispatch on the exact format identifier (table regenerated from the source) -/
 def verify (o : AttObj) (cdHash : Bytes) : Prog (Option Result) :=
